@@ -212,6 +212,8 @@ func runC08(r *vf.Run) {
 		if p, msg, stack := vf.Try(func() { c08SharedParts(r, id, r.RNG(id+"/shared-parts"), A, B, ts) }); p {
 			r.Violation(id+"/shared-parts", "panic", map[string]any{"panic": msg, "stack": head(stack, 3000)})
 		}
+		c08Holes(r, id, r.RNG(id+"/holes"), A, ts)
+		c08Rebuilt(r, id, r.RNG(id+"/rebuilt"), A, B, dir)
 		r.Count("dataset_pairs", 1)
 	})
 	racePass(r)
